@@ -39,9 +39,9 @@ func init() {
 				{Name: "lanes16", N: 4 * 2 * 64, Run: c02Lanes},
 				{Name: "two-bit-words", N: 64, Run: c02TwoBit},
 				{Name: "gaps", N: c.Pick(10000, 2000000), Run: c02Gaps},
-				{Name: "zoo", N: c.Pick(20000, 3000000), Run: c02Zoo},
-				{Name: "zoo-long", N: c.Pick(400, 100000), Run: c02ZooLong},
-				{Name: "dense-long", N: c.Pick(6, 300), Run: c02DenseLong},
+				{Name: "zoo", Env: 8, N: c.Pick(20000, 3000000), Run: c02Zoo},
+				{Name: "zoo-long", Env: 4, N: c.Pick(400, 100000), Run: c02ZooLong},
+				{Name: "dense-long", Env: 2, N: c.Pick(6, 300), Run: c02DenseLong},
 				{Name: "huge-sparse", N: c.Pick(1, 6), Run: c02HugeSparse},
 			}
 		},
